@@ -43,6 +43,11 @@ add("C07", "fault_enumeration", "a child process executing history operations on
     "HistoryFS.tla models the same code at system-call grain with Crash enabled everywhere and TLC checks the C07 invariants on it",
     "trusted: the ptrace supervisor (global syscall order over all threads), TLC, the driver; process crash not power loss; every kill point of the listed scenarios, not every scenario", "ptrace kill-point enumeration on the real store + TLA+ syscall-grain model (TLC) + records judged by TLC", "crash", "5/C07")
 
+add("C09", "model_checking", "CronDaemon.tla models tick loop, late and bunched ticks, restart, suspend, start visibility delay and the job guard; TLC checks only-scheduled / no-double-per-incarnation / guard invariants; "
+    "the real daemon (scheduler.New: real entry reader + fsnotify watcher, Scheduler.run via the verif wrapper, real jobImpl, real cron parser) is driven tick by tick over a recording fake client, and TLC judges every tick with its own "
+    "CronMatch on the structure the expressions were generated from (Props_Cron) and the guard rules applied to the answers each job was given",
+    REC_NOTE + "; the fake client (history as seen by the guard); Go's time package for broken-down UTC time; watcher latency bound 5 s", "TLA+ daemon model (TLC) + per-tick records of the real daemon judged by TLC with an independent cron oracle", "cron", "5/C09")
+
 ALL = ["C%02d" % i for i in range(1, 21)]
 for p in ALL:
     if p not in CHECKS:
@@ -71,6 +76,8 @@ def main():
              "kind_free_text": "operation-sequence driver around the real jsondb store; trace validation by TLC"},
             {"name": "crash", "path": "harness/rig/sup.go + harness/rig/crash.go + spec/HistoryFS.tla + spec/CrashObserve.tla", "serves_properties": ["C07"],
              "kind_free_text": "ptrace supervisor (kill at k-th system call, torn writes) around a history driver; records judged by TLC"},
+            {"name": "cron", "path": "harness/rig/cron.go + spec/CronDaemon.tla + spec/Props_Cron.tla + spec/CronObserve.tla", "serves_properties": ["C09"],
+             "kind_free_text": "tick driver around the real scheduler daemon with a recording fake client; records judged by TLC"},
             {"name": "admit", "path": "harness/rig/admit.go + spec/Admission.tla + spec/AdmissionObserve.tla", "serves_properties": ["C14"],
              "kind_free_text": "graph enumerator around scheduler.NewExecutionGraph / agent.Run; records judged by TLC"},
         ],
